@@ -94,6 +94,9 @@ def notifyWorld (st : State) (s g : Nat) (actors : List Nat) (isJoin : Bool) : L
   ((worldOf st s).map (fun m => Ev.mk m isJoin s g actors)) ++
   ((worldOf st allScopes).map (fun m => Ev.mk m isJoin s g actors))
 
+/-- who monitors group `k` directly, through its scope, or through all scopes — in sending order -/
+def recipients (st : State) (k : Key) : List Nat := listenersOf st k ++ worldOf st k.1 ++ worldOf st allScopes
+
 /-- `get_or_create_actor_relations` then a modification under the relations lock -/
 def relUpdate (rel : List (Nat × Rel)) (a : Nat) (f : Rel → Rel) : List (Nat × Rel) :=
   alter rel a (fun o => some (f (o.getD Rel.empty)))
@@ -206,7 +209,8 @@ thread's `join`/`leave`/`monitor` runs between them; the harness reports each re
 * `markDead a`      `inner.set_status(≥ Stopping)` is published
 * `demonTake a`, `demonKey a k`, `demonWKey a s`   `demonitor_all`: drain, then one entry at a time
 * `takeMem a`       `leave_all`: memberships drained from the reverse index under its lock
-* `leaveKey a k`    one iteration of the loop: the forward entry of `k` under its lock
+* `leaveKey a k`    one iteration of the loop: the forward entry of `k` under its lock; the
+                    recipients of the `Leave` are fixed here
 * `finishLeave a`   `remove_empty_actor_relations` + the notifications
 -/
 
@@ -226,18 +230,59 @@ def demonWKey (st : State) (a : Nat) (s : Nat) : State := { st with world := alt
 def takeMem (st : State) (a : Nat) : State :=
   { st with rel := alter st.rel a (fun o => o.map (fun r => { r with mem := [] })) }
 
-/-- returns the removal record `(key, listeners at that moment)` if `a` was still a member -/
+/-- returns the removal record `(key, recipients at that moment)` if `a` was still a member: group
+listeners, scope listeners and all-scopes listeners are all read under the entry lock -/
 def leaveKey (st : State) (a : Nat) (k : Key) : State × Option (Key × List Nat) :=
   if a ∈ membersOf st k then
     ({ st with map := alter st.map k (dropMember a),
                index := if del a (membersOf st k) = [] then removeFromIndex st.index k else st.index },
-     some (k, listenersOf st k))
+     some (k, recipients st k))
   else (st, none)
 
+/-- `remove_empty_actor_relations`, then the notifications to the recorded recipients -/
 def finishLeave (st : State) (a : Nat) (removed : List (Key × List Nat)) : State × List Ev :=
-  let st' := { st with rel := removeEmptyRel st.rel a }
-  (st', removed.flatMap (fun r =>
-      r.2.map (fun m => Ev.mk m false r.1.1 r.1.2 [a]) ++ notifyWorld st' r.1.1 r.1.2 [a] false))
+  ({ st with rel := removeEmptyRel st.rel a },
+   removed.flatMap (fun r => r.2.map (fun m => Ev.mk m false r.1.1 r.1.2 [a])))
+
+/-! ### `join_scoped` / `leave_scoped` in two regions: the entry lock, then the notifications
+
+Everybody who is to be told is fixed under the group's entry lock: the per-group listener list is
+cloned there (`Pending.gl`) and so are the scope and all-scopes listeners (`Pending.wl`,
+`world_listeners_of` — since the `fix:` commit for finding F6; before it they were looked up only
+when the notifications were sent). The notification region just sends. `leave_all` does the same
+per drained key (`leaveKey` records the recipients, `finishLeave` sends). -/
+
+structure Pending where
+  isJoin : Bool
+  s : Nat
+  g : Nat
+  actors : List Nat
+  /-- the recipients, fixed at the entry region -/
+  to : List Nat
+  deriving DecidableEq, Repr
+
+/-- the entry-lock region of `join_scoped` -/
+def joinEntry (st : State) (s g : Nat) (actors : List Nat) : State × Option Pending :=
+  let as1 := actors.filter (alive st)
+  -- nobody passes the status re-check any more: `entry(key).or_default()` has nevertheless created
+  -- the group entry; it stays (empty) until the clean-up region (`joinCleanup`) removes it, and a
+  -- `leave_scoped` of that group running in between finds an entry and notifies
+  if as1 = [] then ({ st with map := alter st.map (s, g) (fun o => some (o.getD ⟨[], []⟩)) }, none)
+  else ((join st s g actors).1, some ⟨true, s, g, as1, recipients st (s, g)⟩)
+
+/-- the entry-lock region of `leave_scoped` -/
+def leaveEntry (st : State) (s g : Nat) (actors : List Nat) : State × Option Pending :=
+  match get st.map (s, g) with
+  | none => (st, none)
+  | some _ => ((leave st s g actors).1, some ⟨false, s, g, actors, recipients st (s, g)⟩)
+
+/-- the recipients before the F6 fix: group listeners of the entry region, but scope and all-scopes
+listeners of the (later) notification region -/
+def legacyRecipients (stEntry stNotify : State) (k : Key) : List Nat :=
+  listenersOf stEntry k ++ worldOf stNotify k.1 ++ worldOf stNotify allScopes
+
+/-- the notification region: it only sends; nothing is looked up any more -/
+def notifyPending (p : Pending) : List Ev := p.to.map (fun m => Ev.mk m p.isJoin p.s p.g p.actors)
 
 /-- `monitor`: the region after `drop(entry)`: status re-check and clean-up -/
 def monitorRecheck (st : State) (g a : Nat) : State :=
@@ -251,9 +296,11 @@ def monitorScopeRecheck (st : State) (s a : Nat) : State :=
                  rel := removeEmptyRel st.rel a }
 
 /-- `join_scoped`: the region after the entry lock: reverse-index entries created for actors
-that turned out to be stopping are dropped again if empty -/
-def joinCleanup (st : State) (actors : List Nat) : State :=
-  { st with rel := (actors.filter (fun a => !alive st a)).foldl removeEmptyRel st.rel }
+that turned out to be stopping are dropped again if empty, and so is a group entry that was
+created for nobody -/
+def joinCleanup (st : State) (s g : Nat) (actors : List Nat) : State :=
+  { st with rel := (actors.filter (fun a => !alive st a)).foldl removeEmptyRel st.rel,
+            map := alter st.map (s, g) (fun o => o.bind gsNorm) }
 
 /-! ### Queries -/
 
